@@ -26,6 +26,9 @@ class LruSpace(object):
                      b"p:" + b"L" * r.choice([71, 72, 73, 74, 146, 147, 200]) + b"|", b"p:\xc3\xa9|", b"p:{|", b"p:}|"]
             r.shuffle(paths)
             self.paths = paths[: r.randint(3, 7)]
+            if r.random() < 0.35:       # two long siblings that agree on everything the head block holds
+                head = b"p:" + b"L" * 72
+                self.paths += [head + r.choice([b"-zz|", b"zz|", b"LLz|"]), head + r.choice([b"-mm|", b"a|", b"LL|", b"|"])]
             self.tails = [b"q:a=1|", b"f:top|", b"q:s:http|"]
         else:
             n = r.randint(3, 7)
@@ -38,6 +41,8 @@ class LruSpace(object):
                 alphabet = r.sample(G2_BYTES, r.randint(1, 3))
                 body = bytes(r.choice(alphabet) for _ in range(L - 1))
                 self.stems.append(body + b"|")
+                if L > 76 and r.random() < 0.5:     # a sibling that differs only beyond the head block
+                    self.stems.append(body[:74] + bytes(r.choice(alphabet) for _ in range(r.choice([0, 1, 3, 80]))) + b"|")
             if r.random() < 0.3:
                 self.stems.append(b"|")
 
@@ -353,6 +358,15 @@ class Session(object):
 
     def r_paginate(self, full=True):
         w, ps = self.pick_we()
+        if self.r.random() < 0.12 and len(self.pages) >= 4:
+            # a long prefix list (two-digit prefix indexes in the tokens): the prefixes are not checked against the id
+            extra = []
+            for l in self.r.sample(self.pages, min(len(self.pages), 14)):
+                st = stems_of(l)
+                q = b"".join(st[: self.r.randint(max(1, len(st) - 1), len(st))])
+                if q not in extra and q not in ps:
+                    extra.append(q)
+            ps = list(ps) + extra
         a = brack([hx(p) for p in ps])
         k = self.r.choice(["1", "1", "2", "3", "5", "-"])
         co = "1" if self.r.random() < 0.25 else "0"
@@ -430,7 +444,7 @@ class Session(object):
     def r_helpers(self):
         l = self.any_lru()
         self.q("expand " + hx(l)); self.q("variations " + hx(l))
-        self.q("token %d %d" % (self.r.randint(0, 5), self.r.choice([0, 1, 2, 3, 7, 27, 63, 64, 4095, 4096, self.r.getrandbits(40)])))
+        self.q("token %d %d" % (self.r.choice([0, 1, 2, 3, 5, 9, 10, 11, 37, 64, 100]), self.r.choice([0, 1, 2, 3, 7, 27, 63, 64, 4095, 4096, self.r.getrandbits(40)])))
         self.q("chunks %d %s" % (self.r.choice([1, 2, 74]), hx(self.any_lru())))
         self.q("rule %s %s" % (self.r.choice(RULE_NAMES), hx(l)))
 
